@@ -170,7 +170,7 @@ OmPairT(x, y) ==
   /\ xy = OmMulDef(x, y) /\ OmConjV(x) = OmConjDef(x) /\ OmAdj2V(x) = OmAdj2Def(x)
   /\ \A cx \in {ToCyclo(x)}, cy \in {ToCyclo(y)} : xy = ToCyclo(C!MulG(cx, cy)) /\ xy = ToCyclo(C!Mul(cx, cy))
   /\ y # OmZero => OmDividesV(y, xy)
-  /\ (y # OmZero /\ (\E q \in OmSet(BT) : OmMulV(q, y) = x)) => OmDividesV(y, x)
+  /\ (y # OmZero /\ OmAbs(y) > OmAbs(x) /\ x # OmZero) => ~OmDividesV(y, x)       \* a divisor cannot have the larger norm
 \* x, y fixed per state: xy, x + y are passed in evaluated
 OmTriple(x, y, z, xy, s) ==
   \A yz \in {OmMulV(y, z)}, xz \in {OmMulV(x, z)} :
